@@ -49,4 +49,16 @@ theorem tie_policy_dispatch :
     KoordVerif.Generated.C10.staticPolicyCalls = ["recoverCPUSetIfNeed", "applyCPUSetWithStaticPolicy"] ∧
     KoordVerif.Generated.C10.otherPolicyCalls = ["applyCPUSetWithNonePolicy"] := by decide
 
+/-- suppressBECPU (model `roundStep`): quota mode = adjustByCfsQuota then hand the cpuset back; cpuset mode = adjustByCPUSet
+    then unset the quota; disabled = recover both; the budget receives the NodeSLO's host applications, threshold and
+    minimum percent (in this order). -/
+theorem tie_round_dispatch :
+    KoordVerif.Generated.C10.roundQuotaModeCalls = ["adjustByCfsQuota", "recoverCPUSetIfNeed"] ∧
+    KoordVerif.Generated.C10.roundCpusetModeCalls = ["adjustByCPUSet", "recoverCFSQuotaIfNeed"] ∧
+    KoordVerif.Generated.C10.roundDisabledCalls = ["recoverCFSQuotaIfNeed", "recoverCPUSetIfNeed"] ∧
+    KoordVerif.Generated.C10.roundBudgetArgs =
+      ["node", "nodeCPUUsage", "podMetrics", "podMetas", "nodeSLO.Spec.HostApplications", "hostAppMetrics",
+       "*nodeSLO.Spec.ResourceUsedThresholdWithBE.CPUSuppressThresholdPercent",
+       "nodeSLO.Spec.ResourceUsedThresholdWithBE.CPUSuppressMinPercent"] := by decide
+
 end KoordVerif.C10
